@@ -68,6 +68,8 @@ type c03H3Scenario struct {
 	tail     []byte // raw bytes appended after the last complete frame (a cut frame header / a cut unknown frame)
 	unknown  bool   // unknown-type (GREASE) frames are interleaved with the DATA frames
 	trailers bool   // a trailers HEADERS frame follows the DATA frames
+	enc      string // Content-Encoding of the response ("" = none): the body is the ENCODED byte string
+	surplus  []byte // the bytes sent beyond the body (len = extra); nil = extra times 'X'
 }
 
 // c03H3Wire is what the peer writes for a scenario: the first burst, an optional later burst, and
@@ -103,11 +105,14 @@ func c03H3Plan(sc c03H3Scenario) (w c03H3Wire) {
 	if sc.declared >= 0 {
 		f = append(f, [2]string{"content-length", strconv.Itoa(sc.declared)})
 	}
+	if sc.enc != "" {
+		f = append(f, [2]string{"content-encoding", sc.enc})
+	}
 	w.fieldLists = append(w.fieldLists, f)
 	w.first = append(w.first, c03H3Frame(0x1, c03H3Block(f))...)
 	payload := []byte(sc.body)[:sc.send]
 	if !sc.late {
-		payload = append(payload, bytes.Repeat([]byte("X"), sc.extra)...)
+		payload = append(payload, c03Extra(sc.surplus, sc.extra)...)
 	}
 	n := sc.frames
 	if n < 1 {
@@ -136,7 +141,7 @@ func c03H3Plan(sc c03H3Scenario) (w c03H3Wire) {
 		payload = payload[k:]
 	}
 	if sc.late {
-		w.later = c03H3Frame(0x0, bytes.Repeat([]byte("X"), sc.extra))
+		w.later = c03H3Frame(0x0, c03Extra(sc.surplus, sc.extra))
 	}
 	if sc.trailers {
 		tf := [][2]string{{"x-trailer", "v"}}
@@ -297,13 +302,27 @@ func TestVerif_C03_h3cut(t *testing.T) {
 	perName := map[string]int{}
 	tmpDir := t.TempDir()
 	for i := 0; i < n && failures < 12; i++ {
-		body := verifh.RandBytes(r, 1+r.Intn(300), "abcdefghijklmnopqrstuvwxyz")
+		plain := verifh.RandBytes(r, 1+r.Intn(300), "abcdefghijklmnopqrstuvwxyz")
+		kind := r.Intn(19)
+		// the content-encoding dimension (see zz_verif_c03_enc_test.go): two cases in five carry an ENCODED body
+		// (kinds 16..18 always: gzip, several members); every ending / cut point / surplus below applies to it
+		var ze *c03EncBody
+		if kind >= 16 || r.Intn(5) < 2 {
+			ze = c03PickEnc(r, plain, kind >= 16)
+		}
+		body := plain
+		if ze != nil {
+			body = string(ze.wire)
+		}
 		sc := c03H3Scenario{body: body, declared: len(body), send: len(body), frames: 1 + r.Intn(4), ending: "fin", complete: true}
 		if r.Intn(3) == 0 {
 			sc.declared = -1
 		}
 		class := ""
 		cutAt := func() int {
+			if ze != nil && len(ze.bounds) > 0 && r.Intn(3) == 0 {
+				return ze.bounds[r.Intn(len(ze.bounds))] // exactly between two gzip members
+			}
 			switch r.Intn(4) {
 			case 0:
 				return 0 // right after HEADERS
@@ -314,15 +333,17 @@ func TestVerif_C03_h3cut(t *testing.T) {
 		}
 		// H3_NO_ERROR 0x100 … H3_VERSION_FALLBACK 0x110 (0x10b request rejected, 0x10c request cancelled)
 		h3Codes := []uint64{0x100, 0x101, 0x102, 0x103, 0x104, 0x105, 0x106, 0x107, 0x108, 0x109, 0x10a, 0x10b, 0x10c, 0x10d, 0x10e, 0x10f, 0x110}
-		switch r.Intn(16) {
+		switch kind {
 		case 0, 1:
 			sc.name = "complete"
 			// controls without a body although a length is declared: HEAD, 204, 304
 			switch r.Intn(4) {
 			case 0:
 				sc.name, sc.head, sc.declared, sc.send = "complete-head-with-length", true, len(body), 0
+				ze = nil
 			case 1:
 				sc.name, sc.status, sc.declared, sc.send = "complete-304-with-length", 304, len(body), 0
+				ze = nil
 			}
 		case 2: // FIN before the declared length
 			sc.name, sc.declared, sc.send, sc.complete = "short-fin", len(body), cutAt(), false
@@ -352,6 +373,9 @@ func TestVerif_C03_h3cut(t *testing.T) {
 			case 1:
 				sc.name, sc.late = "overlong-late-frame", true
 			case 2:
+				if ze != nil {
+					break
+				}
 				body = verifh.RandBytes(r, verifh.Pick(r, []int{512, 512, 1024}), "abcdefghijklmnopqrstuvwxyz")
 				sc.name, sc.body, sc.declared, sc.send, sc.frames = "overlong-at-read-buffer", body, len(body), len(body), 1
 			case 3:
@@ -390,6 +414,39 @@ func TestVerif_C03_h3cut(t *testing.T) {
 			} else {
 				sc.name, sc.declared, sc.send, sc.complete = "short-with-trailers", len(body), cutAt(), false
 			}
+		case 16: // encoded body, the fault hits BEFORE its first byte: reset (any code) / connection close / FIN with a declared length
+			sc.send, sc.complete = 0, false
+			switch r.Intn(3) {
+			case 0:
+				sc.ending, sc.code = "reset", h3Codes[r.Intn(len(h3Codes))]
+			case 1:
+				sc.ending, sc.code = "conn-close", []uint64{0x100, 0x102}[r.Intn(2)]
+			case 2:
+				sc.declared, sc.trailers = len(body), r.Intn(3) == 0
+			}
+			sc.name = "enc-fault-before-first-byte"
+		case 17: // FIN exactly between two gzip members, short of the declared length
+			sc.name, sc.declared, sc.send, sc.complete, sc.trailers = "enc-short-at-member-boundary", len(body), ze.bounds[r.Intn(len(ze.bounds))], false, r.Intn(3) == 0
+		case 18: // more DATA than declared, the surplus being a further valid gzip member (or junk)
+			sc.name, sc.declared, sc.complete, sc.late = "enc-overlong-member", len(body), false, r.Intn(2) == 0
+			sc.surplus = ze.surplus(r)
+			sc.extra = len(sc.surplus)
+		}
+		if ze != nil && sc.extra > 0 && sc.surplus == nil && r.Intn(2) == 0 {
+			sc.surplus = ze.surplus(r)
+			sc.extra = len(sc.surplus)
+		}
+		// (deflate / br / zstd: only faults that cut the ENCODED stream short — see h2cut)
+		if ze != nil && ze.enc != "gzip" && !sc.complete && !(sc.send < len(body) && sc.extra == 0 && len(sc.tail) == 0 && !strings.HasPrefix(sc.ending, "midframe")) {
+			ze = nil
+		}
+		if ze != nil {
+			sc.enc = ze.enc
+			s.Count("enc:" + ze.tag())
+			reached["enc:"+ze.tag()]++
+			if !sc.complete {
+				reached["enc-fault:"+ze.enc]++
+			}
 		}
 		// a multi-step sequence on the request stream: informational responses, then the final one
 		perName[sc.name]++
@@ -406,10 +463,14 @@ func TestVerif_C03_h3cut(t *testing.T) {
 			method = "HEAD"
 		}
 		want := body
+		if ze != nil {
+			want = plain
+		}
 		if sc.head || sc.status == 304 {
 			want = ""
 		}
 		c := mk()
+		ze.prep(c)
 		stream := r.Intn(4) == 0
 		cc := &c03Caller{mode: c03PickMode(r, "", "", 0), dir: tmpDir}
 		if stream {
@@ -490,7 +551,11 @@ func TestVerif_C03_h3cut(t *testing.T) {
 			flArg = strings.Join(fls, "/")
 		}
 		mode := map[bool]string{true: "s", false: "a"}[stream]
-		line := "c03h3 " + map[bool]string{true: "1", false: "0"}[sc.head] + " " + verifh.HexList(segs) + " " + endKind + " " + flArg + " " + mode
+		lane := "c03h3 "
+		if ze != nil {
+			lane = "c03h3z " + ze.enc + " "
+		}
+		line := lane + map[bool]string{true: "1", false: "0"}[sc.head] + " " + verifh.HexList(segs) + " " + endKind + " " + flArg + " " + mode
 		impl := "fail"
 		switch {
 		case o.first == "hang":
@@ -499,7 +564,7 @@ func TestVerif_C03_h3cut(t *testing.T) {
 			impl = "ok status=" + strconv.Itoa(o.fx.status) + " body=" + verifh.Hex(string(o.fx.body))
 		case stream && !headSeen:
 			impl = "fail-call"
-		case stream && endKind == "fin":
+		case stream && endKind == "fin" && ze == nil:
 			impl = "fail-body delivered=" + verifh.Hex(string(o.fx.body))
 		case stream:
 			impl = "fail-body"
@@ -523,6 +588,9 @@ func TestVerif_C03_h3cut(t *testing.T) {
 			}
 			reached["fail"]++
 		}
+		if ze != nil && !o.fx.ok && !strings.HasPrefix(plain, string(o.fx.body)) {
+			ok, why = false, "the bytes handed out before the failure are not a prefix of the decoded body"
+		}
 		if !ok && strings.HasPrefix(o.first, "ok") && (sc.name == "short-fin" || sc.name == "midframe-fin") {
 			class = "h3-fin-truncated"
 		}
@@ -542,7 +610,7 @@ func TestVerif_C03_h3cut(t *testing.T) {
 		reached[sc.name]++
 		s.Count("scenario:" + sc.name)
 		s.Count("dials:" + strconv.Itoa(dials))
-		human := fmt.Sprintf("h3 %s declared=%d body=%d sent=%d extra=%d frames=%d interim=%d tail=%x caller=%s -> %s (%s) second-ok=%v dials=%d",
+		human := fmt.Sprintf("h3 %s enc="+ze.tag()+" declared=%d body=%d sent=%d extra=%d frames=%d interim=%d tail=%x caller=%s -> %s (%s) second-ok=%v dials=%d",
 			sc.name, sc.declared, len(body), sc.send, sc.extra, sc.frames, sc.interim, sc.tail, callerName, c04Short(o.first), o.ferr, o.secondOK, dials)
 		if why != "" {
 			human += " ORACLE: " + why
@@ -551,6 +619,17 @@ func TestVerif_C03_h3cut(t *testing.T) {
 			// report a known finding a few times only, so that it cannot crowd out an unknown one
 			knownSeen[class]++
 		}
+		if ze != nil && !ze.modelled {
+			// br / zstd: no container model — judged by the oracle alone
+			if !ok && o.fx.ok && ze.enc == "zstd" && sc.send <= 3 {
+				if class == "" {
+					failures--
+				}
+				class = c03ZstdClass
+			}
+			s.Observe(fmt.Sprintf("h3z/%d/%s/%s", i, sc.name, ze.tag()), ok, class, !sc.complete, human, why)
+			continue
+		}
 		s.Case(line, impl, ok, class, !sc.complete, human)
 	}
 	s.Finish()
@@ -558,7 +637,9 @@ func TestVerif_C03_h3cut(t *testing.T) {
 		return
 	}
 	for _, need := range []string{"ok", "fail", "complete", "complete-head-with-length", "complete-304-with-length", "short-fin", "reset-code-100", "reset-code-10b", "reset-code-10c", "conn-close-code-100", "conn-close-code-102", "midframe-fin", "overlong", "overlong-late-frame", "overlong-at-read-buffer", "overlong-zero-length", "interim-1xx:short-fin", "interim-1xx:overlong", "interim-1xx:complete", "close-before-headers", "reset-after-full-body",
-		"fin-in-frame-header", "fin-in-skipped-frame", "fin-in-settings-frame", "fin-in-trailer-frame", "complete-with-unknown-frames", "complete-with-trailers", "short-with-trailers"} {
+		"fin-in-frame-header", "fin-in-skipped-frame", "fin-in-settings-frame", "fin-in-trailer-frame", "complete-with-unknown-frames", "complete-with-trailers", "short-with-trailers",
+		"enc-fault-before-first-byte", "enc-short-at-member-boundary", "enc-overlong-member", "enc:gzip-transparent", "enc:gzip-auto", "enc:deflate-auto", "enc:br-auto", "enc:zstd-auto",
+		"enc-fault:gzip", "enc-fault:deflate", "enc-fault:br", "enc-fault:zstd"} {
 		if reached[need] == 0 {
 			t.Errorf("C03/h3cut never reached %q", need)
 		}
